@@ -30,12 +30,16 @@ structure State where
 
 def init : State := {}
 
-def rm (r : Regex.Re) (s : String) : Bool := r.matches s
+/-- wire form of a level name: `^` stands for a line feed (`!` for `/`, which no regex of the generator distinguishes) -/
+def decodeName (s : String) : String := String.ofList (s.toList.map (fun c => if c == '^' then '\n' else c))
+
+def rm (r : Regex.Re) (s : String) : Bool := r.matches (decodeName s)
 
 def parseLevel (tok : String) : Option (Level Regex.Re) :=
   match tok.toList with
   | '=' :: cs => some (.str (String.ofList cs))
   | '~' :: cs => (Regex.parse (String.ofList cs)).map .re
+  | ['*'] => (Regex.parse ".*").map .re          -- `RoutingKeyBuilder::all()`
   | _ => none
 
 def parsePattern (s : String) : Option (List (Level Regex.Re)) :=
